@@ -66,7 +66,10 @@ func (s *recSession) Create(mailbox string, options *imap.CreateOptions) error {
 	s.add(recCall{Method: "Create", S: []string{mailbox}, V: su})
 	return nil
 }
-func (s *recSession) Delete(m string) error { s.add(recCall{Method: "Delete", S: []string{m}}); return nil }
+func (s *recSession) Delete(m string) error {
+	s.add(recCall{Method: "Delete", S: []string{m}})
+	return nil
+}
 func (s *recSession) Rename(a, b string) error {
 	s.add(recCall{Method: "Rename", S: []string{a, b}})
 	return nil
